@@ -844,6 +844,32 @@ def random_stream(rng) -> bytes:
     return data
 
 
+BANNERS = [b"ser2net port 5003 device /dev/ttyUSB0 [115200 N81] (Debian GNU/Linux)", b"\xff\xfb\x01\xff\xfb\x03\xff\xfd\x18",
+           b"CONNECT 115200", b"OK", b"+++", b"AT", b"login: ", b"SSH-2.0-OpenSSH_9.2", b"HTTP/1.1 400 Bad Request",
+           b"0;255;3;0;14;Gateway startup complete.", b"0;255;3;0;9;MCO:BGN:INIT GW,CP=RNNGA---,REL=255,VER=2.3.2",
+           b"0;255;3;0;9;Starting gateway (RNNGA-, 2.0.0)", b"# comment", b"// comment", b"\x1b[0m", b"\x00\x00\x00", b">"]
+
+
+def dictionary_streams(ctx) -> list[bytes]:
+    """Streams whose first / middle / last line is text the transport code itself mentions (vf.codedict: string constants
+    and regex examples of the transport modules, the ones the reference tree does not have first) or a banner that
+    devices in front of a gateway are known to send.  A transport that treats ANY line specially shows up as a read that
+    is not a line of the stream."""
+    from .. import codedict
+
+    try:
+        texts = codedict.systematic_candidates(codedict.TRANSPORT_MODULES, ctx.pick(120, 600))
+    except Exception:  # noqa: BLE001
+        texts = []
+    out = []
+    for item in [*BANNERS, *(t.encode("utf-8", "replace") for t in texts)]:
+        item = item.replace(b"\n", b" ")
+        out.append(item + b"\n1;2;1;0;0;first\n2;0;1;0;2;second\n")
+        out.append(b"1;255;3;0;14;up\n" + item + b"\n" + item + b" 5003 device\n")
+        out.append(item)
+    return out
+
+
 def length_sweep_writes(rng) -> list[str]:
     """Lines of every character length 1..140 whose UTF-8 length differs from their character length by 0..9 bytes
     (chunked writers, byte/character confusions)."""
@@ -932,6 +958,11 @@ def run(ctx) -> None:
                 sizes = [rng.choice([1, 2, 3, 7, 64, 1000, 65536]) for _ in range(rng.randint(1, 8))]
                 fault = "reset-after-stream" if i % 5 == 0 else None
                 arun(tcp_case(ctx, stream, sizes, length_sweep_writes(rng) if i % 7 == 3 else random_writes(rng), fault))
+            for i, stream in enumerate(dictionary_streams(ctx)):
+                if ctx.mine(i):
+                    ctx.clause("dictionary-stream")
+                    arun(tcp_case(ctx, stream, [rng.choice([1, 3, 64, 65536])], ["w\n"], None))
+                    arun(reader_case(ctx, stream, (len(stream) // 2,), eof=True))
             for i, first_end in enumerate(("eof", "reset", "open", "eof-midline", "reset", "eof-midline")):
                 if ctx.mine(i):
                     arun(reconnect_case(ctx, first_end, b"4;1;1;0;2;1\nsecond;2\n", ["w1\n", "w2 \xe5\n"]))
